@@ -394,6 +394,11 @@ func exec(line string) (out string) {
 			return ans
 		}
 		return "ok " + encJSON(doc)
+	case "tree.domain":
+		if theoremDomain(pvs, fl == "1") {
+			return "in"
+		}
+		return "out"
 	case "tree.prune2", "tree.prune3":
 		return realPrune(ver, fl == "1", pvs, false)
 	case "tree.prunemap2", "tree.prunemap3":
